@@ -3,12 +3,18 @@
 EXTENDS TinyLFU
 
 Strats == {"Poll", "Notify"}
-\* capacities 1..3 (max_capacity 2, 3, 3), 3 keys, threshold 1, read shard 1
-ConfsSeq == {ConfOf(c, s, 3, 1, 1) : c \in 1..3, s \in Strats}
+\* capacities 1..2 (max_capacity 2, 3), 3 keys, threshold 1, read shard 1
+ConfsSeq == {ConfOf(c, s, 3, 1, 1) : c \in 1..2, s \in Strats}
+ConfsRounds == {ConfOf(1, s, 3, 1, 1) : s \in Strats}
 \* 4 keys, capacity 1..2 (pinned region can hold two entries)
 ConfsSeq4 == {ConfOf(c, s, 4, 1, 1) : c \in 1..2, s \in Strats}
 ConfsConc == {ConfOf(c, s, 3, 1, 1) : c \in 1..2, s \in Strats}
 ConfsPoll == {ConfOf(1, "Poll", 3, 1, 1)}
+C1N == {ConfOf(1, "Notify", 3, 1, 1)}
+C1P == {ConfOf(1, "Poll", 3, 1, 1)}
+C2N == {ConfOf(2, "Notify", 3, 1, 1)}
+C2P == {ConfOf(2, "Poll", 3, 1, 1)}
+C1P4 == {ConfOf(1, "Poll", 4, 1, 1)}
 Both == {TRUE, FALSE}
 Tie == {FALSE}
 =============================================================================
